@@ -259,7 +259,10 @@ def classify(l: tuple[Fraction, Fraction], r: tuple[Fraction, Fraction], rel: Fr
         d = abs(lp - rp)
         mp_ = max(abs(lp), abs(rp))
         fail_thr = max(abs_hi if abs_hi is not None else 0, relm * mmod)
-        pass_thr = abs_lo if abs_lo is not None else relm * mp_
+        # must-pass: within the stated absolute tolerance, or within the relative tolerance under EVERY reading of
+        # "the larger magnitude" (hence the smaller part): the tolerance in force is the larger of the two (max rule
+        # of pytest.approx, which the library documents), so stating an absolute tolerance never narrows the band
+        pass_thr = max(abs_lo, relm * min(abs(lp), abs(rp))) if abs_lo is not None else relm * mp_
         for b in [relm * abs(lp), relm * abs(rp), relm * lmod, relm * rmod] + abs_readings:
             if d == 0 and b == 0:
                 continue
@@ -1041,7 +1044,7 @@ def run(ctx: Ctx) -> None:
         ctx.merge(val)
     ctx.assumptions += [
         "band semantics of the property text: must-fail D > max(abs, rel*M); must-pass D <= abs if stated else D <= rel*M; the "
-        "strip in between is counted, not judged",
+        "strip in between is counted, not judged; with a stated absolute tolerance must-pass is D <= max(abs, rel*min(|l|,|r|)) (max rule)",
         "complex operands: must-fail uses rel*max modulus, must-pass rel*max |part| (judged only where both readings of 'larger "
         "magnitude' agree)",
         "dimensions with a mass exponent: the stated absolute tolerance is judged only where reading it in SI (kg) and reading it "
